@@ -214,19 +214,47 @@ func (c *simCase) round(g expCfg) {
 	}
 }
 
+// finishJobs settles the environment: every unfinished trial's job finishes with a metric, and every trial whose
+// collector has reported nothing yet gets its entry (a value, rarely the `unavailable` marker)
 func (c *simCase) finishJobs(g expCfg) {
 	for _, t := range c.trials(g.ns) {
-		if t.Labels["katib.kubeflow.org/experiment"] == g.name && !t.IsCompleted() {
+		if t.Labels["katib.kubeflow.org/experiment"] != g.name {
+			continue
+		}
+		if !t.IsCompleted() {
 			c.metricOp(t.Name, pick(c.rng, simValues))
 			c.jobOp(t.Namespace, t.Name, true)
+		} else if len(c.s.db.logs[t.Name]) == 0 && t.DeletionTimestamp.IsZero() {
+			if c.rng.Intn(6) == 0 {
+				c.metricOp(t.Name, "unavailable")
+			} else {
+				c.metricOp(t.Name, pick(c.rng, simValues))
+			}
 		}
 	}
 }
 
+// settle: fault-free rounds (jobs finish, metrics arrive) until a whole round attempts no write, at most `rounds`
 func (c *simCase) settle(g expCfg, rounds int) {
+	if g.max == nil && rounds > 6 {
+		rounds = 6 // an experiment without maxTrialCount (and without a reachable goal) runs forever
+	}
 	for i := 0; i < rounds; i++ {
+		w0 := c.s.writesTotal
+		n0 := len(c.ops)
 		c.round(g)
 		c.finishJobs(g)
+		if c.s.writesTotal == w0 && len(c.ops)-n0 > 0 && i > 0 {
+			jobsLeft := false
+			for _, t := range c.trials(g.ns) {
+				if t.Labels["katib.kubeflow.org/experiment"] == g.name && !t.IsCompleted() {
+					jobsLeft = true
+				}
+			}
+			if !jobsLeft {
+				return
+			}
+		}
 	}
 }
 
@@ -318,7 +346,7 @@ func runSim(rng *rand.Rand, tier string, k int) Case {
 	}
 	// settle: faults stop, jobs finish, metrics arrive
 	for _, g := range cfgs {
-		c.settle(g, 8)
+		c.settle(g, 40)
 	}
 	// quiescence probe: two further rounds must not write anything
 	for _, g := range cfgs {
@@ -335,7 +363,7 @@ func runSim(rng *rand.Rand, tier string, k int) Case {
 			r := c.s.editMax(g.ns, g.name, n)
 			c.emit(fmt.Sprintf("SIM editMax %s %s %d", g.ns, g.name, n), "ok="+b01(r))
 			c.tags["budget-raised-after-completion"] = true
-			c.settle(g, 10)
+			c.settle(g, 40)
 			c.emit(fmt.Sprintf("SIM quiesce-begin %s %s", g.ns, g.name), "ok=1")
 			c.round(g)
 			c.round(g)
